@@ -2,10 +2,20 @@
 VARIANT = "san"
 RULE = "see stats"
 PARTIAL = [
-    "solver.check()/checkSolutionValid()/checkSolutionOptimal() inside solve() are not modelled: any throw on a valid "
-    "instance is an oracle failure and a correspondence mismatch (F11 lived there and is covered by UBSan on every case). "
     "Every clause of the property is proved for all inputs of the domain on the model (universal optimality included: "
-    "t1d_optimal, since this round also with slack)",
+    "t1d_optimal), and since this round the self-checks solve() runs on itself (check, solver.check, checkSolutionValid, "
+    "checkSolutionOptimal) are modelled branch for branch (Model/Transp1dChecks.lean, solveFull) and proved never to throw "
+    "on the domain (solveFull_never_throws; checks_accept_iff_in_domain, solve_passes_own_checks) and to throw, with the "
+    "stated message, on each class of malformed input (checks_reject_*). Not proved / not exercised: (a) soundness of "
+    "checkSolutionOptimal as an optimality test (that a plan it accepts is optimal) is neither claimed by the property nor "
+    "proved - only that it accepts the solver's plan, and two decided witnesses that its error branches are reachable; the "
+    "correspondence compares model and code on ~57000 mutated plans per run; (b) calls the C++ cannot survive are not in the "
+    "correspondence stream: checkSolutionValid/checkSolutionOptimal with an entry index out of range (model: "
+    "err:indexOutOfRange; C++: out-of-bounds write) and checkSolutionOptimal with a non-positive demand on a sink without "
+    "entry (model: err:sentinel; C++: LLONG_MIN enters `gain +=`, signed overflow when the gain is negative) - "
+    "solve_passes_own_checks shows neither happens inside solve(); (c) three throw sites are dead in the C++ as written "
+    "(u.size() != nbSources(), v.size() != nbSinks(), and S/D/p size tests of solver.check() which hold by construction): "
+    "they are in the model but no input reaches them",
 ]
 ASSUMPTIONS = [
     "C++ long long/int arithmetic modelled as unbounded Int (positions up to 1e8 and quantities up to 3e12 are exercised under UBSan)",
@@ -25,11 +35,22 @@ LEVEL_TEXT = ("Lean 4 theorems over an executable, bounds-checked model of Trans
               "back through the sorter to the verified certificate certOk (cert_optimal_1d, weak duality); with exact balance by an "
               "explicit Kantorovich potential, t1d_optimal_balanced); assign() never errors, one positive-demand sink per source "
               "(t1d_assign_safe); a source the plan does not split is assigned exactly the plan's sink (t1d_unsplit_kept); "
-              "balanceDemand; the model is tied to the C++ by an exhaustive small-bound + random (positions to 1e8) differential "
-              "stream under ASan/UBSan; per instance the driver additionally evaluates certOk (untrusted Bellman-Ford potentials) on "
+              "balanceDemand; solve() WITH its self-checks (solveFull: Transportation1d::check, Transportation1dSolver::check, "
+              "checkSolutionValid, checkSolutionOptimal incl. the LLONG_MIN sentinel handling repaired after F11, modelled branch for "
+              "branch with one error value per exception message) never throws on the domain and returns solve's plan "
+              "(solveFull_never_throws: check() accepts exactly the domain, the sorted zero-free instance passes solver.check(), the "
+              "plan is valid, and the dual certificate of the optimality proof bounds every running gain of the two scans by "
+              "be(nxt)-be(snk) <= 0; the sentinel is never read), and throws the stated exception on every class of malformed input "
+              "(checks_reject_*: sizes, negative supply/demand, supply > demand / empty sink side, unsorted positions, zero "
+              "capacities; checkSolutionValid accepts exactly the valid plans); the model is tied to the C++ by an exhaustive small-bound + random (positions to 1e8) differential "
+              "stream under ASan/UBSan, which since this round also covers solve() with its checks on every case (`full`, incl. which "
+              "exception) and a second stream of 25000 malformed / raw cases per run driving each check function directly (`chk`, "
+              "`schk`, `val`, `opt`: size mismatches, negative and zero quantities, excess supply, unsorted positions, empty sides, "
+              "several defects at once; the solver's own solution, the reverse-greedy plan and random mutations for the two solution "
+              "checks - model and code must agree on whether and with which message each call throws); per instance the driver additionally evaluates certOk (untrusted Bellman-Ford potentials) on "
               "`cert` ops and the verified interval certificate ivCertOk of the sweep's positions (closed-formula prices) on every "
               "case; validity, optimality (independent exact optimum) and the rounding clauses are evaluated by a direct oracle on "
               "every generated instance")
 LEVEL_NOTE = ("Trusted: Lean kernel (axioms propext/Classical.choice/Quot.sound only), the hand-written model's tie to the code "
               "(differential, bounded by the generator), unbounded Int for long long, list models of priority_queue/sort/bounds.")
-TECHNIQUE = "Lean 4 proof (sweep invariants + termination measure, correctness of the slope-events sweep as an optimiser: event queue = marginal cost, KKT conditions of the position problem, dual prices via Monge/quasi-convexity, LP weak duality, Kantorovich potential for the balanced case, interval merge, permutation index maps) + model/implementation correspondence stream + per-instance optimality certificates"
+TECHNIQUE = "Lean 4 proof (sweep invariants + termination measure, correctness of the slope-events sweep as an optimiser: event queue = marginal cost, KKT conditions of the position problem, dual prices via Monge/quasi-convexity, LP weak duality, Kantorovich potential for the balanced case, interval merge, permutation index maps; self-checks of solve(): executable model with one error per exception message, acceptance derived from the dual certificate, rejection lemmas per malformed-input class) + model/implementation correspondence stream + per-instance optimality certificates"
